@@ -265,6 +265,9 @@ def replay(case):
         b.run_step()
         got = b.session_state["step"]
         return got != g(1), "session clock after a step at t=%r with dt=%r is %r, grid value is %r" % (g(0), dt, got, g(1))
+    if name == "plot-window-concrete":
+        bad = [x for x in concrete_plot_probe() if x[0] == start and x[2] == dt and x[1] == float(case.get("stop", 0.0))]
+        return bool(bad), ("Element.plot(starttime=%r, stoptime=%r, dt=%r) %s" % (start, case.get("stop"), dt, bad[0][3])) if bad else "Element.plot reports the window's grid"
     if name == "run-grid-concrete":
         bad = [x for x in concrete_run_probe([(start, dt, 0, False)], n=k)]
         return bool(bad), ("run_scenarios of a scenario with runspecs start=%r dt=%r %s" % (start, dt, bad[0][4])) if bad else "run_scenarios reports the scenario's grid"
@@ -347,6 +350,30 @@ def concrete_run_probe(points, n=7):
     return bad
 
 
+def concrete_plot_probe():
+    """Element.plot(return_df=True) with explicit window bounds, including bounds that are 0.0, on a model that starts at a
+    negative time: one row per grid point of the window, nothing else"""
+    from BPTK_Py import Model
+    bad = []
+    for dt in (0.25, 0.1, 1.0):
+        m = Model(starttime=-1.0, stoptime=1.0, dt=dt, name="plotprobe")
+        c = m.converter("c")
+        c.equation = 1.0
+        fd = Fraction(repr(dt))
+        for (a, b_) in ((-1.0, 0.0), (0.0, 1.0), (-1.0, 1.0), (0.0, 0.0)):
+            fa, fb = Fraction(repr(a)), Fraction(repr(b_))
+            want = [float(fa + k * fd) for k in range(int((fb - fa) / fd) + 1)]
+            try:
+                df = c.plot(starttime=a, stoptime=b_, dt=dt, return_df=True)
+                got = [float(t) for t in df.index]
+            except Exception as e:
+                bad.append((a, b_, dt, "raised %r" % (e,)))
+                continue
+            if got != want:
+                bad.append((a, b_, dt, "reports %d rows %r..%r, the window has %d rows %r..%r" % (len(got), got[:1], got[-1:], len(want), want[:1], want[-1:])))
+    return bad
+
+
 # ------------------------------------------------------------------ self-validation of round(y, p)
 
 def validate_round(n=24, seed=0):
@@ -389,8 +416,9 @@ def run(tier):
     from BPTK_Py import Model
     from BPTK_Py.bptk import bptk
     from BPTK_Py.sdsimulation.sd_simulation import SdSimulation
+    from BPTK_Py.sddsl.element import Element
     rep = harness.Report(PID, tier, "model_checking", MODULE)
-    rep.encoded(fpm.normalize, fpm.timerange, fpm.precision_and_scale, fpm.scale, Model.memoize, bptk.run_step, bptk.begin_session,
+    rep.encoded(fpm.normalize, fpm.timerange, fpm.precision_and_scale, fpm.scale, Model.memoize, bptk.run_step, bptk.begin_session, Element.plot,
                 SdSimulation._SdSimulation__simulate)
     tmo = 170 if tier == "quick" else 400
     import os
@@ -407,6 +435,9 @@ def run(tier):
     for (st_, dt_, n_, runs_, what) in concrete_run_probe(BASE):
         rep.candidate("run-grid-concrete:dt=%g" % dt_, {"start": st_, "dt": dt_, "k": n_, "name": "run-grid-concrete", "runs": runs_},
                       "run_scenarios (run %d) of a scenario with runspecs start=%r dt=%r %s" % (runs_, st_, dt_, what))
+    for (a_, b_, dt_, what) in concrete_plot_probe():
+        rep.candidate("plot-window-concrete:%g..%g" % (a_, b_), {"start": a_, "dt": dt_, "k": 0, "name": "plot-window-concrete", "stop": b_},
+                      "Element.plot(starttime=%r, stoptime=%r, dt=%r, return_df=True) %s" % (a_, b_, dt_, what))
     try:
         src = sources()
     except Exception as e:
